@@ -22,9 +22,9 @@ def layout_text(body, newline_every=True, case=None):
 
 
 class Fixture(object):
-    def __init__(self, tape, order=(), texts=None, case=None):
+    def __init__(self, tape, order=(), texts=None, case=None, states=None):
         """texts: optional {kind:name -> body text} overriding the generated bodies (idempotence round)"""
-        self.callables, self.features, _t = c15_callables.gen_graph(tape, for_prebuild=True)
+        self.callables, self.features, _t = c15_callables.gen_graph(tape, for_prebuild=True, states=states)
         self.printed = {}
         for c in self.callables:
             p, text, pos = layout_text(c.body, case=case)
@@ -47,6 +47,16 @@ class Fixture(object):
             for a in c['attrs']:
                 if a.get('derived') is not None:
                     a['derived'] = src['derived:' + a['name']]
+        for c in self.callables:
+            if c.kind in ('state', 'txn'):
+                sm = c15_callables.SM_DEFS[c.sm[0]]
+                for ci_, cl in enumerate(D['classes']):
+                    for m_ in cl.get('sms', []):
+                        if cl['kl'] == sm['cls'] and m_['kind'] == sm['kind']:
+                            if c.kind == 'state':
+                                m_['states'][c.sm[1]]['body'] = src[key(c)]
+                            else:
+                                m_['txns'][c.sm[1]][3] = src[key(c)]
         self.D = D
         rows, self.ix = bpmodel.to_rows(D)
         from .c14_component import shuffle
@@ -63,6 +73,16 @@ class Fixture(object):
             return m.select_any('S_BRG', xtuml.where_eq(Name=c.name))
         if c.kind in ('classop', 'instop'):
             return m.select_any('O_TFR', xtuml.where_eq(Name=c.name))
+        if c.kind in ('state', 'txn'):
+            sm = c15_callables.SM_DEFS[c.sm[0]]
+            ci = [k for k, cl in enumerate(self.D['classes']) if cl['kl'] == sm['cls']][0]
+            if c.kind == 'state':
+                sid = self.ix['state'][(ci, sm['kind'], sm['states'][c.sm[1]])]
+                h = m.select_any('SM_MOAH', xtuml.where_eq(SMstt_ID=sid))
+            else:
+                tid = self.ix['txn'][(ci, sm['kind'], c.sm[1])]
+                h = m.select_any('SM_TAH', xtuml.where_eq(Trans_ID=tid))
+            return one(h).SM_AH[513].SM_ACT[514]()
         o_attr = m.select_any('O_ATTR', xtuml.where_eq(Name=c.name))
         return one(o_attr).O_BATTR[106].O_DBATTR[107]()
 
